@@ -148,6 +148,17 @@ pub fn family(tier: Tier) -> Vec<R> {
     let mut out: Vec<R> = atoms.clone();
     out.push(R::atom(Tag::DVar, "a"));
     out.push(R::atom(Tag::Operator, "a"));
+    // names that differ only in letter case, in every named kind, bare and inside ordered / unordered compounds
+    for n in ["left", "Left", "LEFT", "lEFT"] {
+        for &k in NAMED_ATOMS.iter() {
+            let x = R::atom(k, n);
+            out.push(x.clone());
+            out.push(R::node(Tag::Product, vec![x.clone(), a.clone()]));
+            out.push(R::node(Tag::SetExt, vec![x.clone(), a.clone()]));
+            out.push(R::pair(Tag::Sim, x.clone(), a.clone()));
+            out.push(R::pair(Tag::Inh, a.clone(), x));
+        }
+    }
     out.push(R::interval(7));
     out.push(R::placeholder());
     // level 1: every unordered constructor over the atoms, every sequence of length 1..3
